@@ -132,6 +132,10 @@ class NestedEvent(Event):
         for state_path in ordered_states:
             state_name = machine.state_cls.separator.join(state_path)
             if state_name not in done and state_name in self.transitions:
+                # an earlier transition of this event may have left this state already
+                global_name = machine.state_cls.separator.join(machine.get_global_name(join=False) + state_path)
+                if not machine.is_state(global_name, model, allow_substates=True):
+                    continue
                 event_data.state = machine.get_state(state_name)
                 event_data.source_name = state_name
                 event_data.source_path = copy.copy(state_path)
@@ -1264,6 +1268,9 @@ class HierarchicalMachine(Machine):
                                                 self.state_cls.separator)
         res = {}
         for key, value in _state_tree.items():
+            # an earlier transition of this event may have left this branch already
+            if not self.is_state(self.get_global_name(key), model, allow_substates=True):
+                continue
             if value:
                 with self(key):
                     tmp = self._trigger_event_nested(event_data, trigger, value)
